@@ -174,7 +174,7 @@ class BbProp(Prop):
         obs = parse_bobs(lines)
         out = []
         prev = BObs("")
-        hist = {"alias": set(), "remapchg": set(), "keys": {}, "acc": {}, "loc": {}, "nsof": {}, "untracked": set()}
+        hist = {"alias": set(), "remapchg": set(), "keys": {}, "acc": {}, "loc": {}, "nsof": {}, "untracked": set(), "req": {}}
         for o in obs:
             self.track(hist, prev, o)
             out += self.check_op(prev, o, hist) or []
@@ -198,18 +198,22 @@ class BbProp(Prop):
             a = absname(hist["nsof"][c], t[2])
             hist["acc"][c].setdefault(a, set()).add({"R": "r", "W": "w", "X": "x"}.get(t[3], "?"))
             hist["loc"][c][a] = a if t[5] == "-" else t[5]
+            if t[4] == "1":
+                hist["req"].setdefault(c, set()).add(a)
         elif t[0] == "unregkey" and int(t[1]) in hist["acc"]:
             c = int(t[1])
             a = absname(hist["nsof"][c], t[2])
             if o.R == "ok":
                 hist["acc"][c].pop(a, None)
                 hist["loc"][c].pop(a, None)
+                hist["req"].setdefault(c, set()).discard(a)
             elif a in hist["acc"][c]:
                 hist["untracked"].add(c)      # raised half-way (K4 / K5 histories): what is left is not judged
         elif t[0] in ("unregall", "unreg") and int(t[1]) in hist["acc"]:
             c = int(t[1])
             if o.R == "ok":
                 hist["acc"][c], hist["loc"][c] = {}, {}
+                hist["req"][c] = set()
             else:
                 hist["untracked"].add(c)
         if t[0] == "reg" and o.R == "ok":
@@ -671,7 +675,17 @@ class C14(BbProp):
                 out.append(viol("filter-clients", "`%s` returned %s expected %s" % (o.op, o.R, exp), **sig))
         if op == "verify":
             cl = prev.C.get(int(t[1]))
-            if cl is not None:
+            c = int(t[1])
+            if cl is not None and c in hist["acc"] and c not in hist["untracked"]:
+                # which keys are required, and where they live, follows from the registrations made (tracked from the
+                # operations), not from the client's own `required` set
+                missing = [k for k in sorted(hist["req"].get(c, ())) if hist["loc"][c].get(k) not in prev.S]
+                if sorted(cl["q"]) != sorted(hist["req"].get(c, ())):
+                    out.append(viol("required-set", "client %d reports required keys %s, registrations made require %s"
+                                    % (c, sorted(cl["q"]), sorted(hist["req"].get(c, ())))))
+                if (o.R == "KeyError") != bool(missing) and not out:
+                    out.append(viol("verify", "`%s` returned %s, required keys without value: %s" % (o.op, o.R, missing)))
+            elif cl is not None:
                 missing = []
                 for k in cl["q"]:
                     if not can_read(cl, k):
